@@ -313,3 +313,61 @@ _MIRROR = {"<": ">", ">": "<", "<=": ">=", ">=": "<=", "==": "==", "!=": "!="}
 def cmp_texts(a, op, b):
     """both spellings of a comparison: a >= b  /  b <= a"""
     return {f"{a} {op} {b}", f"{b} {_MIRROR[op]} {a}"}
+
+
+def ifexp_alternatives(e):
+    """the expression with every conditional expression resolved either way (tests dropped)"""
+    import copy
+
+    order = list(ast.walk(e))
+    for idx, n in enumerate(order):
+        if isinstance(n, ast.IfExp):
+            res = []
+            for which in ("body", "orelse"):
+                dup = copy.deepcopy(e)
+                target = list(ast.walk(dup))[idx]
+                pick = getattr(target, which)
+                if target is dup:
+                    res += ifexp_alternatives(pick)
+                    continue
+
+                class R(ast.NodeTransformer):
+                    def visit(self, node):
+                        if node is target:
+                            return pick
+                        return super().visit(node)
+
+                res += ifexp_alternatives(R().visit(dup))
+            return res
+    return [e]
+
+
+def element_sources(fnode, listvar):
+    """expressions whose values become elements of the local list `listvar`: display elements, comprehension
+    element, arguments of .append; conditional expressions resolved either way and single-assignment
+    temporaries followed.  Returns (texts, loop variables of the comprehension / loop feeding it)"""
+    raw = []
+    for n in walk_local(fnode):
+        if isinstance(n, ast.Assign) and any(isinstance(t, ast.Name) and t.id == listvar for t in n.targets):
+            if isinstance(n.value, ast.List):
+                raw += list(n.value.elts)
+            elif isinstance(n.value, ast.ListComp):
+                raw.append(n.value.elt)
+            else:
+                raw.append(n.value)
+        elif isinstance(n, ast.Call) and isinstance(n.func, ast.Attribute) and n.func.attr == "append" and isinstance(n.func.value, ast.Name) and n.func.value.id == listvar and len(n.args) == 1:
+            raw.append(n.args[0])
+    out = set()
+    todo = list(raw)
+    seen = 0
+    while todo and seen < 64:
+        seen += 1
+        e = todo.pop()
+        for alt in ifexp_alternatives(e):
+            if isinstance(alt, ast.Name):
+                vals = assigned_values(fnode, alt.id)
+                if vals and alt.id != listvar:
+                    todo.extend(vals)
+                    continue
+            out.add(norm(alt))
+    return out
